@@ -108,6 +108,10 @@ def solve_milp(
     if root_result.status == LPStatus.UNBOUNDED:
         return Result(None, float("-inf") if minimize else float("inf"), 0, total_iters, Status.UNBOUNDED)
 
+    if root_result.status == LPStatus.MAX_ITER:
+        # The relaxation itself was not solved within max_iter: there is no bound and no point to work with
+        return Result(None, float("inf") if minimize else float("-inf"), 0, total_iters, Status.MAX_ITER)
+
     best_solution, best_obj = None, float("inf") if minimize else float("-inf")
     sign = 1 if minimize else -1
     all_solutions: list[tuple[float, ...]] = []
@@ -162,6 +166,7 @@ def solve_milp(
     heappush(tree, (root_bound, counter, Node(root_bound, tuple(lower), tuple(upper), 0)))
     counter += 1
     nodes_explored = 0
+    truncated = False  # a node LP hit max_iter: its subtree was dropped without being searched
 
     while tree and nodes_explored < max_nodes:
         node_bound, _, node = heappop(tree)
@@ -175,6 +180,8 @@ def solve_milp(
         nodes_explored += 1
 
         if result.status != LPStatus.OPTIMAL:
+            if result.status == LPStatus.MAX_ITER:
+                truncated = True
             continue
 
         if best_solution is not None and sign * result.objective >= sign * best_obj - eps:
@@ -204,7 +211,8 @@ def solve_milp(
                 best_solution, best_obj = sol, sol_obj
                 gap = _compute_gap(best_obj, node_bound / sign if node_bound != 0 else 0)
                 if gap < gap_tol and solution_limit == 1:
-                    return Result(best_solution, best_obj, nodes_explored, total_iters)
+                    status = Status.FEASIBLE if truncated else Status.OPTIMAL
+                    return Result(best_solution, best_obj, nodes_explored, total_iters, status)
 
             continue
 
@@ -223,12 +231,13 @@ def solve_milp(
         )
         counter += 1
 
+    complete = not tree and not truncated
     if best_solution is None:
-        # Open nodes left means max_nodes stopped the search: nothing has been proven infeasible
-        status = Status.INFEASIBLE if not tree else Status.MAX_ITER
+        # Open or dropped nodes mean a limit stopped the search: nothing has been proven infeasible
+        status = Status.INFEASIBLE if complete else Status.MAX_ITER
         return Result(None, float("inf") if minimize else float("-inf"), nodes_explored, total_iters, status)
 
-    status = Status.OPTIMAL if not tree else Status.FEASIBLE
+    status = Status.OPTIMAL if complete else Status.FEASIBLE
     if solution_limit > 1 and all_solutions:
         return Result(best_solution, best_obj, nodes_explored, total_iters, status, solutions=tuple(all_solutions))
     return Result(best_solution, best_obj, nodes_explored, total_iters, status)
